@@ -507,6 +507,7 @@ def run_codec(tier, rng, res, hist):
             if py_attr_ok(p["attrs"]) != p["flags"][3]:
                 res.violation("correspondence", {"attrs": p["attrs"]}, "python mirror of attr_ok differs from the model", no_input=True)
     theorem_transfer(cs.items, res, stats)
+    check_tsv_tables(res)
     kinds = {}
     for k, _, _ in cs.items:
         kinds[k] = kinds.get(k, 0) + 1
@@ -538,6 +539,7 @@ def run(tier, seed, res, model_ok=True, proof_ok=True):
     hist = {}
     t0 = time.time()
     out = {"evaluations": 0}
+    hist["model_ok"] = bool(model_ok)
     if model_ok:
         cod = run_codec(tier, rng, res, hist)
     else:
@@ -552,7 +554,7 @@ def run(tier, seed, res, model_ok=True, proof_ok=True):
                 "end-to-end: edit cases accepted by the loader and by compliance plus bundled schemas, each taken through "
                 "all applicable format x merged round trips",
         "samples": cod["samples"] + e2e["samples"],
-        "histogram": hist,
+        "histogram": {k: v for k, v in hist.items() if k != "model_ok"},
         "disagreements_checked": cod["stats"]["disagreements"],
         "exhaustive": False,
         "correspondence_cases": cod["codec_cases"],
@@ -570,16 +572,22 @@ def run_e2e(tier, rng, res, hist):
     except ImportError:
         return {"cases": 0, "nontrivial": 0, "samples": [], "summary": {"missing": True}}
     try:
-        cases = list(E.CORPUS) + E.gen_cases(rng, tier)
+        cases = list(E.CORPUS) + E.gen_cases(rng, tier) + E.gen_histories(rng, tier)
     except Exception as e:  # noqa -- the generator needs every bundled schema to load
         res.report("bundled-schema-loads", {"stage": "edit generation"}, f"{type(e).__name__}: {str(e)[:300]}")
         cases = [{"kind": "bundled", "schema": f} for f in E.bundled()]
     with Pool(int(C.JOBS)) as pool:
-        outs = pool.map(E.run_case, cases, chunksize=1)
+        outs = pool.map(E.run_any, cases, chunksize=1)
     summary = {}
     nontrivial = 0
     rts = 0
+    want_files = sorted(model_tsv_files()) if hist.get("model_ok", True) else None
     for o in outs:
+        if want_files is not None and "tsv_files" in o and o["tsv_files"] != want_files:
+            res.report("tsv-file-set", {"e2e": o["case"]},
+                       f"section files written {o['tsv_files']} != the fixed set of the model {want_files}")
+        if o["case"].get("kind") == "history":
+            summary["histories"] = summary.get("histories", 0) + 1
         summary[o["outcome"]] = summary.get(o["outcome"], 0) + 1
         rts += o.get("n_roundtrips", 0)
         for k, v in (o.get("stats") or {}).items():
@@ -601,13 +609,56 @@ def run_e2e(tier, rng, res, hist):
     return {"cases": len(cases), "nontrivial": nontrivial, "samples": [str(c)[:200] for c in cases[:2]], "summary": summary}
 
 
+_model_files = None
+
+
+def model_tsv_files():
+    """df_suffixes of Model/TsvFiles.v (what C05_tsv_files_written_full says every save writes)."""
+    global _model_files
+    if _model_files is None:
+        exe = C.build_driver("c05")
+        out = C.run_driver(exe, ["(tsvfiles (1 0 1 0 0 0 0 0 0 1))"])[0]
+        _model_files = [K.un_s(x) for x in out]
+    return _model_files
+
+
+def check_tsv_tables(res):
+    """Tie of Model/TsvFiles.v: the dict Schema2DF hands to save_dataframes always has the model's ten keys, in the
+    model's order, and one file per key is written whatever the table holds."""
+    import hed.schema.hed_schema_df_constants as dk
+    from hed.schema.schema_io.df_util import create_empty_dataframes
+    want = model_tsv_files()
+    got = list(create_empty_dataframes().keys())
+    if got != want:
+        res.violation("correspondence", {"kind": "tsv-tables"}, f"create_empty_dataframes keys {got} model {want}", no_input=True)
+    d = C.scratch_dir("hedverif-c05f-")
+    try:
+        for fn, m in (("HED_testlib_2.0.0.xml", False), ("HED8.0.0.xml", True)):
+            try:
+                s = load(fn)
+            except Exception:  # noqa  (reported by the bundled cases)
+                continue
+            keys = list(s.get_as_dataframes(m).keys())
+            if keys != want:
+                res.violation("correspondence", {"kind": "tsv-tables", "schema": fn}, f"get_as_dataframes keys {keys} model {want}",
+                              no_input=True)
+            p = os.path.join(d, fn[:-4] + str(int(m)), "sch")
+            s.save_as_dataframes(p, m)
+            files = sorted(f[len("sch_"):-len(".tsv")] for f in os.listdir(p))
+            if files != sorted(want):
+                res.report("tsv-file-set", {"schema": fn, "merged": m},
+                           f"section files written {files} != the fixed set of the model {sorted(want)}")
+    finally:
+        shutil.rmtree(d, ignore_errors=True)
+
+
 def replay(payload):
     case = payload.get("case") or {}
     res = C.Result(PROP)
     res.known_ids = {}
     if "e2e" in case:
         from harness import c05_e2e as E
-        o = E.run_case(case["e2e"])
+        o = E.run_any(case["e2e"])
         print("outcome:", o["outcome"])
         for f in o["failures"]:
             print("FAILS:", f)
